@@ -76,6 +76,7 @@ def wuss2ct (ss : Bytes) : Option (List Nat) :=
 
 inductive WErr where
   | einval | einconceivable | efail | esyntax
+  | einvalLetters (partialSs : List UInt8)   -- eslEINVAL "not enough letters"; the caller's buffer holds this partial string
   | fault          -- out-of-bounds access (the C code has no check there)
   deriving Repr, DecidableEq, Inhabited
 
@@ -151,12 +152,14 @@ def scanK (cct : Array Nat) (i : Nat) (leftbound rightbound : Int) : (fuel : Nat
       else .ok leftbound
     else .ok k
 
-/-- `while (i < rb[xpk]) xpk++;` — `rb` has 26 cells and the C code does not check `xpk` -/
+/-- `while (xpk < 26 && i < rb[xpk]) xpk++;` — `rb` has 26 cells; `xpk == 26` is "not enough letters" in the caller -/
 def bumpXpk (rb : Array Int) (i : Nat) : (fuel : Nat) → (xpk : Int) → Except WErr Int
   | 0, _ => .error .fault
-  | fuel+1, xpk => do
-    let r ← rdInt rb xpk
-    if (i : Int) < r then bumpXpk rb i fuel (xpk + 1) else .ok xpk
+  | fuel+1, xpk =>
+    if xpk < 26 then do
+      let r ← rdInt rb xpk
+      if (i : Int) < r then bumpXpk rb i fuel (xpk + 1) else .ok xpk
+    else .ok xpk
 
 /-- `while (esl_stack_IPop(auxpk, &i) == eslOK) { ... }` -/
 def pkLoop (ct : Array Nat) (j : Nat) :
@@ -181,7 +184,7 @@ def pkLoop (ct : Array Nat) (j : Nat) :
       let oi ← rdNat ct i
       let cct ← wrNat cct oi 0
       pkLoop ct j rest leftbound rightbound xpk { st with rb := rb, ss := ss, cct := cct, reached := st.reached + 1 }
-    else .error .einval      -- "Don't have enough letters to describe all different pseudoknots."
+    else .error (.einvalLetters st.ss.toList)   -- "Don't have enough letters to describe all different pseudoknots."
 
 /-- `for (j = 1; j <= n; j++)` -/
 def c2wMain (simple : Bool) (ct : Array Nat) (n : Nat) : (fuel : Nat) → (j : Nat) → (pda : List Int) → C2W →
@@ -252,6 +255,7 @@ def wussFull (ss : Bytes) : Except WErr Bytes :=
   | some ct =>
     match ct2wuss ct with
     | .error .einval => .error .einconceivable
+    | .error (.einvalLetters _) => .error .einconceivable
     | .error e => .error e
     | .ok full => .ok (List.zipWith (fun o t => if isAlpha o then o else t) ss full)
 
